@@ -237,9 +237,9 @@ class Interp:
             self.block(st.body, env)
         elif t is ast.Delete:
             for tgt in st.targets:
-                if isinstance(tgt, ast.Subscript) and not isinstance(tgt.slice, ast.Slice):
+                if isinstance(tgt, ast.Subscript):
                     base, idx = ev(tgt.value, env), ev(tgt.slice, env)
-                    if isinstance(base, Sym) or isinstance(idx, Sym) or not isinstance(base, (list, dict)):
+                    if isinstance(base, Sym) or isinstance(idx, Sym) or not (isinstance(base, (list, dict, bytearray)) or hasattr(type(base), '__delitem__') and hasattr(type(base), '_model')):
                         raise Unknown(f'del {ast.unparse(tgt)}')
                     try:
                         del base[idx]
